@@ -40,7 +40,10 @@ Print Assumptions C03_parked_only_if_queue_full_refuted.
     the real code are replayed on this model by the driver C03R on every run of this check. *)
 
 (** No lost wake-up under interleaving: once the completion that makes an operation ready has
-    been dispatched, the waker of its MOST RECENT Pending poll has been invoked since that poll. *)
+    been dispatched, the waker of its MOST RECENT Pending poll has been invoked since that poll.
+    Single-shot and two-step operations: the final completion (status Done; the result completion
+    of a two-step operation wakes nobody and leaves the stored waker in place); multishot: ANY
+    dispatched completion (a result is queued). *)
 Theorem C03_race_readying_completion_wakes_latest_waker :
   OpRaceProofs.race_readying_completion_wakes_latest_waker.
 Proof. exact OpRaceProofs.race_readying_completion_wakes_latest_waker_holds. Qed.
